@@ -34,6 +34,7 @@ class World:
         self.delay_range = (0.05, 1.6)
         self.on_uplink = None      # optional observer(session, header, data)
         self.reject_connect = []   # per-session: exception text to raise in connect (consumed)
+        self.send_duration = 0.0        # virtual seconds a send_packet call of the driver takes (out-queue back-pressure)
         self.uri_alias = None           # optional: uri -> device name for URIs of other schemes
         self.close_duration = 0.0       # virtual seconds SimLink.close() takes (0: instantaneous)
         self.on_down_delivered = None   # observer: a downlink packet is handed to the driver's receive queue
@@ -196,6 +197,13 @@ def make_simlink_class():
                 return
             header = pk.header
             data = bytes(pk.data)
+            if w.send_duration and sim.cur() is not None:
+                # the driver's out-queue is full for a moment: the caller (who holds the library's send lock) waits
+                sim.sleep(w.send_duration)
+                if self.closed:
+                    self.sent_after_close += 1
+                    w.wire.append((sim.now, self.session, 'up-closed', header, data, ''))
+                    return
             if self.closing:
                 w.wire.append((sim.now, self.session, 'up-closing', header, data, ''))
                 sim.log('send-while-closing', self.session, header, data)
